@@ -49,6 +49,12 @@ type Env struct {
 	KeepTrace  bool
 	maxViol    int
 	PlanProp   string // property of the plan being executed
+
+	// fsmlog.go
+	Transitions    []fsmTransition
+	peerDeliveries int64
+	peerCloses     int64
+	capturing      bool
 }
 
 // NewEnv creates the environment. Must be called inside the synctest bubble.
@@ -67,7 +73,7 @@ func NewEnv(seed uint64, cfg simrt.Config) *Env {
 	return e
 }
 
-func (e *Env) Close() { e.Sim.Close() }
+func (e *Env) Close() { e.stopFSMLog(); e.Sim.Close() }
 
 func (e *Env) probe(name string) {
 	e.mu.Lock()
